@@ -248,6 +248,10 @@ func (c *checker) run() int {
 	detN := "60"
 	var hashes [2]uint64
 	for i := 0; i < 2; i++ {
+		if i == 1 {
+			// a dependency on the wall clock's second would otherwise go unnoticed
+			time.Sleep(1100 * time.Millisecond)
+		}
 		out := filepath.Join(c.outDir(), fmt.Sprintf("det%d.json", i))
 		_, se, code := c.spawn(fmt.Sprintf("det%d", i), "work", "--prop", c.id, "--seed", fmt.Sprint(c.seed), "--start", "1000000007", "--count", detN, "--out", out, "--known", c.knownKs, "--samples", "0", "--marker", filepath.Join(c.outDir(), fmt.Sprintf("marker-det%d", i)))
 		if code != 0 {
